@@ -454,11 +454,16 @@ def check_matrix(acc, X, only=None):
         case = {"x": X.tolist(), "T": core.jsonable(T)}
         Xt = apply(X, T)
         perm = T[1] if T[0] == "perm" else None
+        X0, Xt0 = X.copy(), Xt.copy()
         try:
             check_scorers(acc, case, X, T, Xt, perm)
             check_detectors(acc, case, X, T, Xt, perm)
         except Exception as e:
             acc.violation("harness-raised", case, f"{type(e).__name__}: {e}", {"exc": type(e).__name__})
+        # the arrays handed to fit / predict must come back untouched (they are shared with the callers' frames)
+        if not (np.array_equal(X, X0) and np.array_equal(Xt, Xt0)):
+            acc.violation("caller-data-modified", case, f"input array modified in place by fit / predict / evaluate under {T}", {"T": T[0], "what": "input"})
+            X[...] = X0
         if nontriv:
             acc.nt()
         acc.outcome(T[0])
